@@ -124,13 +124,24 @@ def prove1(assumptions, goal, use_theory=True, timeout_ms=None, extra_axioms=(),
   budget = timeout_ms or Z3_TIMEOUT_MS
   if use_theory:
     small = theory.select_axioms(base + [goal], closure=False)
+    mid = theory.select_axioms(base + [goal], closure=True, rounds=1)
     full = theory.select_axioms(base + [goal], closure=True)
+    goalset = theory.select_axioms([goal], closure=True)          # what the symbols of the GOAL alone reach
   else:
-    small = full = []
+    small = mid = full = goalset = []
   if axioms_only is not None:
-    small = full = [a for a in theory.AXIOMS if a.name in axioms_only or axioms_only == 'ieee' and a.ieee]
-  plans = [(full, 0, budget // 8), (small, 0, budget // 8)] if len(small) != len(full) else [(full, 0, budget // 4)]
-  plans += [(full, 7, budget // 4), (full, 11, budget // 2)]
+    small = mid = full = goalset = [a for a in theory.AXIOMS if a.name in axioms_only or axioms_only == 'ieee' and a.ieee]
+  # Iterative deepening over four axiom sets: everything reachable (`full`), what the symbols of the goal alone reach, the symbols of the
+  # query, and one round more.  Large sets make e-matching wander -- and which way depends on incidental orderings --, small sets may miss a
+  # lemma; a short first pass finds the quick proofs in whichever set has one, the later passes give the slower ones room.
+  sets = []
+  for cand in (full, goalset, small, mid):
+    if not any(len(cand) == len(x) for x in sets):
+      sets.append(cand)
+  plans = []
+  for k_, tmo in enumerate((max(300, budget // 40), budget // 8, budget // 2)):
+    for axs_ in sets:
+      plans.append((axs_, (0, 7, 11)[k_], tmo))
   last = None
   for axs, seed, tmo in plans:
     s = z3.Solver()
